@@ -69,7 +69,10 @@ pub enum Step {
   /// executions write are added to the report). `shape` bit 0: a first bottom-up build is created, gets the report and
   /// is dropped without being run; bit 1: a second bottom-up build with the same report follows in the same session;
   /// bit 2: a build is created, gets the report and is dropped before the top-down phase.
-  BottomUp { report: Option<Vec<usize>>, then_require: Vec<Tid>, #[serde(default)] pre_require: Vec<Tid>, #[serde(default)] shape: u8, #[serde(default)] keep_going: bool },
+  BottomUp { report: Option<Vec<usize>>, then_require: Vec<Tid>, #[serde(default)] pre_require: Vec<Tid>, #[serde(default)] shape: u8, #[serde(default)] keep_going: bool,
+    /// External changes made while the session is open, after the build(s) above; they are reported to one more
+    /// bottom-up build of the same session (a long-lived session that is told about each batch of changes).
+    #[serde(default)] mid: Vec<(usize, Option<Val>)> },
   /// New session requiring every task known to the instance.
   ProbeAll,
 }
@@ -138,11 +141,13 @@ pub struct GenCfg {
   /// Long histories (150..300 steps) over small programs: state that accumulates on one instance (counters, epochs,
   /// periodic clean-ups, reused ids).
   pub marathon: bool,
+  /// Bottom-up sessions stay open across a batch of external changes that is reported to a further build.
+  pub mid_session: bool,
 }
 
 impl Default for GenCfg {
   fn default() -> Self {
-    GenCfg { class: Class::W, bottom_up: 0, td_between: false, all_roots_td: false, crash: false, check_errors: false, rw_errors: false, exact_only_pct: 40, sim_fams_only: true, replays: 0, big: false, wrappers: false, files: false, proc_replay: false, in_session: false, xl: false, same_session: false, zst: false, marathon: false }
+    GenCfg { class: Class::W, bottom_up: 0, td_between: false, all_roots_td: false, crash: false, check_errors: false, rw_errors: false, exact_only_pct: 40, sim_fams_only: true, replays: 0, big: false, wrappers: false, files: false, proc_replay: false, in_session: false, xl: false, same_session: false, zst: false, marathon: false, mid_session: false }
   }
 }
 
@@ -443,7 +448,7 @@ pub fn gen_history(rng: &mut Rng, prog: &Program, cfg: &GenCfg) -> (Vec<(usize, 
           // Sometimes the caller reports more than what changed (every resource, in an arbitrary order): unchanged
           // resources must not schedule anything.
           let report = if cfg.in_session && rng.chance(20) { let mut v: Vec<usize> = (0..nres).collect(); for i in (1..v.len()).rev() { let j = rng.below(i as u64 + 1) as usize; v.swap(i, j); } Some(v) } else { None };
-          steps.push(Step::BottomUp { report, then_require, pre_require, shape, keep_going: false });
+          steps.push(Step::BottomUp { report, then_require, pre_require, shape, keep_going: false, mid: vec![] });
           if rng.chance(70) { steps.push(Step::ProbeAll); }
         } else if cfg.bottom_up == 0 || cfg.td_between || cfg.all_roots_td {
           steps.push(Step::TopDown { roots: roots(rng, cfg.all_roots_td), keep_going: false });
@@ -477,6 +482,22 @@ pub fn gen_history(rng: &mut Rng, prog: &Program, cfg: &GenCfg) -> (Vec<(usize, 
     }
     if !f.is_none() { faults.insert(i, f); }
   }
+  // Long-lived sessions: a batch of external changes (simulated families only) while the session is open.
+  if cfg.mid_session {
+    let sim_res: Vec<usize> = (0..nres).filter(|r| prog.resources[*r].fam < 2).collect();
+    for st in steps.iter_mut() {
+      if let Step::BottomUp { mid, keep_going, .. } = st {
+        if !sim_res.is_empty() && !*keep_going && rng.chance(60) {
+          for _ in 0..rng.range(1, 3) {
+            let mut r = *rng.pick(&sim_res);
+            if has_mode && rng.chance(40) && prog.resources[nres - 1].fam < 2 { r = nres - 1; }
+            let v = if rng.chance(20) { None } else { Some(rng.below(NVALS as u64) as Val) };
+            mid.push((r, v));
+          }
+        }
+      }
+    }
+  }
   // Sessions that go on after an abort: the caller catches the abort of one build and uses the same session further.
   if cfg.same_session {
     for (i, st) in steps.iter_mut().enumerate() {
@@ -508,7 +529,7 @@ pub fn gen_history(rng: &mut Rng, prog: &Program, cfg: &GenCfg) -> (Vec<(usize, 
       if i + 2 < steps.len() && rng.chance(50) && !faults.contains_key(&(i + 1)) && !faults.contains_key(&(i + 2)) {
         let res = if has_mode && rng.chance(50) { nres - 1 } else { rng.below(nres as u64) as usize };
         steps[i + 1] = Step::Change { res, val: Some(rng.below(NVALS as u64) as Val) };
-        steps[i + 2] = Step::BottomUp { report: None, then_require: vec![], pre_require: vec![], shape: 0, keep_going: false };
+        steps[i + 2] = Step::BottomUp { report: None, then_require: vec![], pre_require: vec![], shape: 0, keep_going: false, mid: vec![] };
       }
     }
   }
